@@ -12,6 +12,7 @@
 #ifndef XSIMD_GENERIC_MATH_HPP
 #define XSIMD_GENERIC_MATH_HPP
 
+#include "../../config/xsimd_verif_hooks.hpp"
 #include "../xsimd_scalar.hpp"
 #include "./xsimd_generic_details.hpp"
 #include "./xsimd_generic_trigo.hpp"
@@ -1285,6 +1286,7 @@ namespace xsimd
                         // x >= 1.5
                         while (any(xge150 && txgt250))
                         {
+                            XSIMD_VERIF_LOOP_TICK();
                             nx = select(txgt250, nx - batch_type(1.), nx);
                             tx = select(txgt250, x + nx, tx);
                             z = select(txgt250, z * tx, z);
@@ -1324,6 +1326,7 @@ namespace xsimd
                             auto orig = txlt150;
                             while (any(txlt150))
                             {
+                                XSIMD_VERIF_LOOP_TICK();
                                 z = select(txlt150, z * tx, z);
                                 nx = select(txlt150, nx + batch_type(1.), nx);
                                 tx = select(txlt150, x + nx, tx);
@@ -1400,6 +1403,7 @@ namespace xsimd
                         auto test1 = (u >= batch_type(3.));
                         while (any(test1))
                         {
+                            XSIMD_VERIF_LOOP_TICK();
                             p = select(test1, p - batch_type(1.), p);
                             u = select(test1, x + p, u);
                             z = select(test1, z * u, z);
@@ -1409,6 +1413,7 @@ namespace xsimd
                         auto test2 = (u < batch_type(2.));
                         while (any(test2))
                         {
+                            XSIMD_VERIF_LOOP_TICK();
                             z = select(test2, z / u, z);
                             p = select(test2, p + batch_type(1.), p);
                             u = select(test2, x + p, u);
@@ -2453,6 +2458,7 @@ namespace xsimd
                 auto test1 = (x >= B(3.));
                 while (any(test1))
                 {
+                    XSIMD_VERIF_LOOP_TICK();
                     x = select(test1, x - B(1.), x);
                     z = select(test1, z * x, z);
                     test1 = (x >= B(3.));
@@ -2460,6 +2466,7 @@ namespace xsimd
                 test1 = (x < B(0.));
                 while (any(test1))
                 {
+                    XSIMD_VERIF_LOOP_TICK();
                     z = select(test1, z / x, z);
                     x = select(test1, x + B(1.), x);
                     test1 = (x < B(0.));
@@ -2467,6 +2474,7 @@ namespace xsimd
                 auto test2 = (x < B(2.));
                 while (any(test2))
                 {
+                    XSIMD_VERIF_LOOP_TICK();
                     z = select(test2, z / x, z);
                     x = select(test2, x + B(1.), x);
                     test2 = (x < B(2.));
